@@ -7,13 +7,13 @@ DIR=${1:?usage: run.sh DIR SEED N [SHARDS]}
 SEED=${2:?seed}
 N=${3:?count}
 SHARDS=${4:-8}
-COQDIR=/verif/coq
+COQDIR=${COQDIR:-/verif/coq}
 TMO=${TIMEOUT:-600}
 export GOFLAGS=-mod=mod GOPROXY=off
 
 mkdir -p "$DIR" || exit 2
 DIR=$(cd "$DIR" && pwd)
-rm -f "$DIR"/cases_time_*.v "$DIR"/cases_timefmt_*.v "$DIR"/cases_time*.out "$DIR"/cases_time*.vo "$DIR"/cases_time*.glob
+rm -f "$DIR"/cases_time_*.v "$DIR"/cases_timestrict_*.v "$DIR"/cases_timefmt_*.v "$DIR"/cases_time*.out "$DIR"/cases_time*.vo "$DIR"/cases_time*.glob
 
 # the model must be compiled
 if [ ! -f "$COQDIR/Time.vo" ] || [ "$COQDIR/Time.v" -nt "$COQDIR/Time.vo" ]; then
@@ -24,10 +24,11 @@ fi
 
 pids=()
 files=()
-for f in "$DIR"/cases_time_*.v "$DIR"/cases_timefmt_*.v; do
+for f in "$DIR"/cases_time_*.v "$DIR"/cases_timestrict_*.v "$DIR"/cases_timefmt_*.v; do
   ( cd "$DIR" && timeout "$TMO" coqc -Q "$COQDIR" V "$f" > "${f%.v}.out" 2>&1; echo "exit=$?" >> "${f%.v}.out" ) &
   pids+=($!)
   files+=("$f")
+  while [ "$(jobs -rp | wc -l)" -ge "${JOBS:-16}" ]; do sleep 0.2; done
 done
 wait
 
